@@ -25,20 +25,21 @@ type hdrOp struct {
 type cookieJ struct{ N, V string }
 
 type scenario struct {
-	Proto      int       `json:"proto"`
-	Method     string    `json:"method"`
-	Req        []hdrOp   `json:"req"`
-	Cli        []hdrOp   `json:"cli"`
-	ReqOrder   []string  `json:"req_order,omitempty"`
-	CliOrder   []string  `json:"cli_order,omitempty"`
-	ReqPOrder  []string  `json:"req_porder,omitempty"`
-	CliPOrder  []string  `json:"cli_porder,omitempty"`
-	Preset     string    `json:"preset,omitempty"`
-	BodyLen    int       `json:"body_len"`
-	ReqCookies []cookieJ `json:"req_cookies,omitempty"`
-	CliCookies []cookieJ `json:"cli_cookies,omitempty"`
-	NoCompress bool      `json:"no_compress"`
-	Redirected bool      `json:"redirected,omitempty"` // judged on a hop after a redirect: net/http adds Referer
+	Proto       int       `json:"proto"`
+	Method      string    `json:"method"`
+	Req         []hdrOp   `json:"req"`
+	Cli         []hdrOp   `json:"cli"`
+	ReqOrder    []string  `json:"req_order,omitempty"`
+	CliOrder    []string  `json:"cli_order,omitempty"`
+	ReqPOrder   []string  `json:"req_porder,omitempty"`
+	CliPOrder   []string  `json:"cli_porder,omitempty"`
+	Preset      string    `json:"preset,omitempty"`
+	BodyLen     int       `json:"body_len"`
+	ReqCookies  []cookieJ `json:"req_cookies,omitempty"`
+	CliCookies  []cookieJ `json:"cli_cookies,omitempty"`
+	NoCompress  bool      `json:"no_compress"`
+	Redirected  bool      `json:"redirected,omitempty"`          // judged on a hop after a redirect: net/http adds Referer
+	NoKeepAlive bool      `json:"disable_keep_alives,omitempty"` // HTTP/1.1: the transport adds Connection: close unless the caller asked for it
 }
 
 var valueWords = []string{"1", "no-cache", "text/html,application/xhtml+xml;q=0.9,*/*;q=0.8", "en-US,en;q=0.5", "a b  c",
@@ -389,7 +390,7 @@ type captured struct {
 	path   string
 	scheme string
 	clen   int64
-	off    bool // set before concurrent use: nothing is recorded then
+	off    bool          // set before concurrent use: nothing is recorded then
 	all    []http.Header // every round trip (the hops of a redirect chain)
 }
 
@@ -426,6 +427,9 @@ func newClient(sc scenario, o *origin.Origin, capt *captured) *req.Client {
 	}
 	if sc.NoCompress {
 		c.DisableCompression()
+	}
+	if sc.NoKeepAlive {
+		c.DisableKeepAlives()
 	}
 	for _, op := range sc.Cli {
 		if op.Kind == "set" {
@@ -610,6 +614,7 @@ func oracle(r *hk.Run, sc scenario, obs origin.Obs) {
 	// automatic fields are set aside, the rest must be exactly the caller's set
 	var rest []origin.Field
 	var ua, cookies []string
+	autoClose := false
 	for _, f := range regular {
 		ln := strings.ToLower(f.Name)
 		switch {
@@ -628,6 +633,8 @@ func oracle(r *hk.Run, sc scenario, obs origin.Obs) {
 		case ln == "accept-encoding" && f.Value == "gzip" && !sc.NoCompress && !callerSet(sc, "Accept-Encoding"):
 		case ln == "content-type" && sc.BodyLen > 0 && !callerSet(sc, "Content-Type"):
 		case f.Name == "Referer" && sc.Redirected && !callerSet(sc, "Referer"):
+		case f.Name == "Connection" && f.Value == "close" && sc.Proto == 1 && sc.NoKeepAlive && !callerWantsClose(sc) && !autoClose:
+			autoClose = true // the transport's own line (keep-alives disabled, the caller did not ask for close)
 		default:
 			rest = append(rest, origin.Field{Name: f.Name, Value: strings.Trim(f.Value, " \t")})
 		}
@@ -694,6 +701,28 @@ func oracle(r *hk.Run, sc scenario, obs origin.Obs) {
 // :authority; the content-length the protocol writer computes is the only one.
 var forbiddenH23 = map[string]bool{"connection": true, "keep-alive": true, "proxy-connection": true,
 	"transfer-encoding": true, "upgrade": true, "host": true, "content-length": true}
+
+// callerWantsClose: the token "close" in the first value of the caller's canonical Connection header
+// (RFC 9110 7.6.1: connection options are a comma-separated, case-insensitive list)
+func callerWantsClose(sc scenario) bool {
+	rh, ch := http.Header{}, http.Header{}
+	applyOps(rh, sc.Req)
+	applyOps(ch, presetOps(sc.Preset))
+	applyOps(ch, sc.Cli)
+	vs := rh["Connection"]
+	if len(vs) == 0 {
+		vs = ch["Connection"]
+	}
+	if len(vs) == 0 {
+		return false
+	}
+	for _, t := range strings.FieldsFunc(vs[0], func(r rune) bool { return r == ',' || r == ' ' || r == '\t' }) {
+		if strings.EqualFold(t, "close") {
+			return true
+		}
+	}
+	return false
+}
 
 func callerSet(sc scenario, canonical string) bool {
 	for _, l := range [][]hdrOp{sc.Req, sc.Cli, presetOps(sc.Preset)} {
@@ -812,6 +841,21 @@ func runE2E(r *hk.Run, rng *hk.Rand) {
 		prng := rng.Fork()
 		for i := 0; i < pr.n; i++ {
 			sc := genScenario(prng, pr.p, i)
+			if pr.p == 1 && prng.Chance(22) {
+				// keep-alives disabled on the client: the transport announces Connection: close itself - unless
+				// the caller did (in any letter case / within a token list), whose field must then go out ONCE
+				sc.NoKeepAlive = true
+				if prng.Chance(60) {
+					op := hdrOp{Kind: "set", K: recase(prng, "connection"), V: hk.Pick(prng, []string{"close", "Close", "CLOSE", "keep-alive", "keep-alive, close", "close, x-opt"})}
+					var kept []hdrOp
+					for _, o := range sc.Req {
+						if !strings.EqualFold(o.K, "connection") {
+							kept = append(kept, o)
+						}
+					}
+					sc.Req = append(kept, op)
+				}
+			}
 			pn := protoName(pr.p)
 			r.Count("e2e." + pn)
 			var obs origin.Obs
@@ -851,6 +895,10 @@ func runE2E(r *hk.Run, rng *hk.Rand) {
 			}
 			desc := map[string]interface{}{"kind": "wire-" + pn, "scenario": sc, "wire": obs.Fields}
 			coq := fmt.Sprintf("WireCase %d %s %s", pr.p, coqCreq(capt, sc), coqLines(obs.Fields))
+			if sc.NoKeepAlive {
+				r.Count("e2e.h1.keep-alives-disabled")
+				coq = fmt.Sprintf("WireKACase %s %s", coqCreq(capt, sc), coqLines(obs.Fields))
+			}
 			r.Add(hk.Case{Coq: coq, Desc: desc}, fmt.Sprintf("e2e|%+v", sc), nUser >= 2)
 			if i%3 == 0 { // the same exchange seen from the API side: calls -> header map at the transport
 				r.Count("merge")
